@@ -19,7 +19,6 @@
   is never invoked; each invocation receives the task's own outcome and the `extra` of THAT registration.
 -/
 import JRV.Lemmas.Future
-import JRV.Generated
 
 set_option linter.unusedVariables false
 set_option linter.unusedSimpArgs false
@@ -316,12 +315,7 @@ example : (run init [.regCall 0 (some .returns) (some 100), .reg 0, .reg 0, .reg
       (fun s => (s.ex.pc, s.attempts.map (fun a => (a.rid, a.data, a.exc, a.extra)))) =
     some (.fin, [(1, none, some 9, some 101)]) := by decide
 
-/-! ### facts extracted from the source, against the model's step table -/
-
-/-- Lines the model executes while the registrar / executor holds the lock (strictly inside the critical
-    section: after the acquisition, before the release), by label, sorted. -/
-def regCsLabels : List String := ["readCompleted", "storeCb", "storeExtra"]
-def execCsLabels : List String := ["readCb", "readExtra", "setCompleted"]
+/-! ### the model's step table, as the extracted facts are compared with it (companions: JRV.Properties.C16Gen) -/
 
 /-- `regCsLabels` / `execCsLabels` are exactly the lines of the model's programs at which the lock is held
     (`Inv1.lockReg` / `Inv1.lockExec`: lock held ⇔ 2 ≤ idx ≤ 5, resp. 5 ≤ idx ≤ 8; the last one is the release). -/
@@ -330,31 +324,34 @@ theorem C16_cs_labels :
     (∀ pc ∈ execProgram, (pc.label ∈ execCsLabels ↔ (5 ≤ pc.idx ∧ pc.idx ≤ 7))) := by
   constructor <;> decide
 
-theorem C16_gen_futLockDiscipline :
-    Generated.futLockDiscipline =
-      some [("set_callback", regCsLabels, []), ("execute.finally", execCsLabels, [])] := by decide
+/-- The guard of `__notify` in the model is identity with `None` and nothing else (`notifyGuardShape`): leaving
+    its critical section the executor goes on to call the callable it captured exactly when it captured one; a
+    registrar exactly when it read `__completed = True` and was given a callable.  Nothing about the callable
+    itself is consulted (not its behaviour `kind`; a truth value does not even exist in the model), so a falsy
+    callable instance is called — once, by `C16_callback_in_force` / `C16_callback_after_completion` — like any
+    other, and `set_callback(None)` calls nothing. -/
+theorem C16_notify_guard (s s' : State) :
+    (s.ex.pc = .rel → step? s .exec = some s' →
+        (s'.ex.pc = .readData ↔ s.ex.cb ≠ none) ∧ (s'.ex.pc = .fin ↔ s.ex.cb = none)) ∧
+    (∀ i, (s.regs i).pc = .rel → step? s (.reg i) = some s' →
+        ((s'.regs i).pc = .readData ↔ ((s.regs i).completed = true ∧ (s.regs i).method ≠ none)) ∧
+        ((s'.regs i).pc = .fin ↔ ¬ ((s.regs i).completed = true ∧ (s.regs i).method ≠ none))) := by
+  constructor
+  · intro hpc hs
+    simp only [step?, stepExec, hpc] at hs
+    cases hs
+    by_cases h : s.ex.cb = none <;> simp [h]
+  · intro i hpc hs
+    simp only [step?, stepReg, hpc] at hs
+    cases hs
+    by_cases h : (s.regs i).completed = true ∧ (s.regs i).method ≠ none <;> simp [setReg, h]
 
-/-- The model's notify steps come after the release and use the registrar's own `(method, extra)`, resp. the
-    pair the executor captured under the lock (`stepReg .invoke`, `stepExec .invoke`). -/
-theorem C16_gen_futNotifyOutsideLock :
-    Generated.futNotifyOutsideLock = some [("set_callback", true, true), ("execute.finally", true, true)] := by
-  decide
-
-/-- `sData`, `sExc` precede `sEvt` in the model's executor program, as in both EventData methods. -/
-theorem C16_gen_eventStoreOrder :
-    Generated.eventStoreOrder = some [("set", ["sData", "sExc"], []), ("raise_exception", ["sData", "sExc"], [])] ∧
-    EPc.sData.idx < EPc.sEvt.idx ∧ EPc.sExc.idx < EPc.sEvt.idx := by decide
-
-/-- `__notify` catches `Exception`, logs, does not re-raise: the model's `invoke` continues at `logErr`/`fin`. -/
-theorem C16_gen_notifyContains : Generated.notifyContains = some ("Exception", true, true) := by decide
-
-/-- Shape of `execute`: the outcome is stored in the except / else arms, the task's exception is re-raised,
-    the lock + notify part sits in `finally` (so it runs for both outcomes, as in `stepExec`). -/
-theorem C16_gen_executeShape :
-    Generated.executeShape =
-      some ["try:call", "except Exception:raise_exception,raise", "else:set", "finally:lock,notify"] := by decide
-
-/-- `EventData.wait` short-circuits on a timed-out wait (model: `readExc1` with `w = false` reads nothing). -/
-theorem C16_gen_waitGuard : Generated.waitGuard = some true := by decide
+/-- Non-vacuity of the guard: `set_callback(None)` after completion calls nothing; a callable registered after
+    completion is called whatever it is. -/
+example : (run init [.execCall (.ret (some 50)), .exec, .exec, .exec, .exec, .exec, .exec, .exec, .exec,
+      .regCall 0 none (some 50), .reg 0, .reg 0, .reg 0, .reg 0, .reg 0,
+      .regCall 1 (some .returns) (some 50), .reg 1, .reg 1, .reg 1, .reg 1, .reg 1, .reg 1, .reg 1, .reg 1]).map
+      (fun s => ((s.regs 0).pc, (s.regs 1).pc, s.attempts.map (fun a => (a.rid, a.data, a.exc, a.extra)))) =
+    some (.fin, .fin, [(1, some 50, none, some 50)]) := by decide
 
 end JRV.Props
